@@ -15,6 +15,14 @@
 (*    sigs},"v":"accept|reject|ignore|panic|hang","w":reason,"pub":0,       *)
 (*    "st":{..},"extra":0}                                                 *)
 (*   {"k":"end"}     {"k":"crash","panic":..}   the replaying process died *)
+(*   {"k":"chain","ch":[..],"start":[s1,s2]}  chain mode: the ev lines that  *)
+(*    follow are the handler calls OBSERVED from the real chainsync.Client   *)
+(*    of node n, started at block start[n] of the chain (fakeeth node with   *)
+(*    the three contracts emulated); pass B also demands that they are the   *)
+(*    calls ClientEvents predicts, in order                                  *)
+(*   {"k":"sync"}    all clients have delivered everything: A5 over the     *)
+(*    CHAIN: equal Storage (A5_ChainStorageDiverged) and, from here on,     *)
+(*    equal verdicts (A5_ChainVerdictDiverged)                              *)
 (* st is the projection of the node's Storage AFTER the step, extra the    *)
 (* number of Storage entries for eons outside the universe, pub the number *)
 (* of messages HandleMessage returned after an accept.                     *)
@@ -31,13 +39,16 @@ CONSTANTS TraceFile, NN
 Trace == ndJsonDeserialize(TraceFile)
 Nodes == 1..NN
 
-VARIABLES l, so, g, obsv, drift
-tvars == <<l, so, g, obsv, drift>>
+VARIABLES l, so, g, obsv, drift, cs
+tvars == <<l, so, g, obsv, drift, cs>>
+(* cs: chain mode (plans that feed the nodes through the real chain-sync client): the chain of the
+   run, per node the handler calls still expected, whether both nodes have seen the whole chain *)
+Cs0 == [on |-> FALSE, pend |-> <<>>, synced |-> FALSE]
 
 So0 == [n \in Nodes |-> Storage0]
 G0 == [n \in Nodes |-> GN0]
 
-TInit == l = 1 /\ so = So0 /\ g = G0 /\ obsv = {} /\ drift = {}
+TInit == l = 1 /\ so = So0 /\ g = G0 /\ obsv = {} /\ drift = {} /\ cs = Cs0
 
 Extra(line) == IF line.extra # 0 THEN {"A4_ExtraEntries"} ELSE {}
 
@@ -45,12 +56,20 @@ TNext ==
     /\ l <= Len(Trace) /\ l' = l + 1
     /\ LET line == Trace[l] IN
        CASE line.k = "new" ->
-              /\ so' = So0 /\ g' = G0
+              /\ so' = So0 /\ g' = G0 /\ cs' = Cs0
               /\ UNCHANGED <<obsv, drift>>
-         [] line.k = "end" -> UNCHANGED <<so, g, obsv, drift>>
+         [] line.k = "end" -> UNCHANGED <<so, g, obsv, drift, cs>>
          [] line.k = "crash" ->
               /\ obsv' = obsv \cup {<<l, "C05_Panic">>}
-              /\ UNCHANGED <<so, g, drift>>
+              /\ UNCHANGED <<so, g, drift, cs>>
+         [] line.k = "chain" ->        \* node n was started at block line.start[n] of the chain and saw it grow to its end
+              /\ cs' = [on |-> TRUE, pend |-> [n \in Nodes |-> ClientEvents(line.ch, line.start[n])], synced |-> FALSE]
+              /\ UNCHANGED <<so, g, obsv, drift>>
+         [] line.k = "sync" ->         \* every node has processed everything its client delivered
+              /\ cs' = [cs EXCEPT !.synced = TRUE]
+              /\ obsv' = obsv \cup (IF \E n1, n2 \in Nodes : so[n1] # so[n2] THEN {<<l, "A5_ChainStorageDiverged">>} ELSE {})
+              /\ drift' = drift \cup (IF cs.on /\ \A n \in Nodes : cs.pend[n] = <<>> THEN {} ELSE {l})
+              /\ UNCHANGED <<so, g>>
          [] line.k = "ev" ->
               LET n  == line.n
                   ev == line.ev
@@ -63,16 +82,22 @@ TNext ==
               /\ so' = s1
               /\ g' = g1
               /\ obsv' = obsv \cup {<<l, o>> : o \in ob}
-              /\ drift' = drift \cup (IF x.st = line.st /\ x.out = line.out /\ line.panic = "" /\ line.extra = 0 THEN {} ELSE {l})
+              /\ cs' = IF cs.on /\ cs.pend[n] # <<>> THEN [cs EXCEPT !.pend[n] = Tail(@)] ELSE cs
+              /\ drift' = drift \cup (IF /\ x.st = line.st /\ x.out = line.out /\ line.panic = "" /\ line.extra = 0
+                                         /\ (cs.on => (cs.pend[n] # <<>> /\ Head(cs.pend[n]) = ev))
+                                      THEN {} ELSE {l})
          [] line.k = "msg" ->
               LET n == line.n
                   m == line.m
                   r == CombinedValidate(so[n], m)
                   ob == MsgObs(g[n], m, line.v, so[n], line.st) \cup Extra(line) \cup
                         (IF NN > 1 THEN TwinMsgObs(g, n, m, line.v) ELSE {}) \cup
+                        (IF cs.synced /\ \E n2 \in Nodes \ {n} : \E p \in g[n2].seen : p[1] = m /\ p[2] # line.v
+                         THEN {"A5_ChainVerdictDiverged"} ELSE {}) \cup
                         (IF line.pub # 0 THEN {"A2_NodePublishes"} ELSE {}) IN
               /\ so' = [so EXCEPT ![n] = line.st]
               /\ g' = [g EXCEPT ![n] = GhostMsg(g[n], m, line.v)]
+              /\ cs' = cs
               /\ obsv' = obsv \cup {<<l, o>> : o \in ob}
               /\ drift' = drift \cup (IF r.v = line.v /\ r.w = line.w /\ line.st = so[n] /\ line.pub = Published(so[n], m) /\ line.extra = 0
                                       THEN {} ELSE {l})
